@@ -20,7 +20,8 @@ Open Scope string_scope.
 Open Scope list_scope.
 Local Notation length := List.length.
 
-Inductive leaf := KText | KDivider | KSpacer | KImage | KImageLink | KButton | KButtonLink.
+(* leaves that carry author content carry it as a parameter; divider and spacer write generated text *)
+Inductive leaf := KText (s : bytes) | KDivider | KSpacer | KImage | KImageLink | KButton (s : bytes) | KButtonLink (s : bytes).
 Definition column := list leaf.
 Inductive section := Cols (cs : list column) | Groups (gs : list (list column)).
 Inductive block := Plain (s : section) | FullWidth (s : section) | Wrap (ss : list section).
@@ -31,18 +32,19 @@ Inductive seg := P (ts : list tok) | M (ts : list tok).
 
 Definition o (n : string) : tok := TOpen (lit n) [] false.
 Definition c (n : string) : tok := TClose (lit n).
-Definition txt : tok := TText (lit "x").
+Definition txt : tok := TText (lit "~").      (* generated text (non-breaking / hair space) and, after erasure, any text *)
+Definition tx (s : bytes) : tok := TText s.
 Definition cond : bytes := lit "mso | IE".
 
 Definition leaf_segs (k : leaf) : list seg :=
   match k with
-  | KText => [P [o "div"; txt; c "div"]]
+  | KText s => [P [o "div"; tx s; c "div"]]
   | KDivider => [P [o "p"; c "p"]; M [o "table"; o "tr"; o "td"; txt; c "td"; c "tr"; c "table"]]
   | KSpacer => [P [o "div"; txt; c "div"]]
   | KImage => [P [o "table"; o "tbody"; o "tr"; o "td"; o "img"; c "td"; c "tr"; c "tbody"; c "table"]]
   | KImageLink => [P [o "table"; o "tbody"; o "tr"; o "td"; o "a"; o "img"; c "a"; c "td"; c "tr"; c "tbody"; c "table"]]
-  | KButton => [P [o "table"; o "tbody"; o "tr"; o "td"; o "p"; txt; c "p"; c "td"; c "tr"; c "tbody"; c "table"]]
-  | KButtonLink => [P [o "table"; o "tbody"; o "tr"; o "td"; o "a"; txt; c "a"; c "td"; c "tr"; c "tbody"; c "table"]]
+  | KButton s => [P [o "table"; o "tbody"; o "tr"; o "td"; o "p"; tx s; c "p"; c "td"; c "tr"; c "tbody"; c "table"]]
+  | KButtonLink s => [P [o "table"; o "tbody"; o "tr"; o "td"; o "a"; tx s; c "a"; c "td"; c "tr"; c "tbody"; c "table"]]
   end.
 
 Definition row_segs (k : leaf) : list seg := P [o "tr"; o "td"] :: leaf_segs k ++ [P [c "td"; c "tr"]].
@@ -205,8 +207,24 @@ Proof. reflexivity. Qed.
 Lemma wb_concat_map {A} (f : A -> list ev) l : (forall x, wb (f x)) -> wb (flat_map f l).
 Proof. intros H. induction l as [|x r IH]; cbn; [apply wb_nil|]. apply wb_app; auto. Qed.
 
+(* character data never affects nesting *)
+Definition te (s : bytes) : list ev := tok_events (TText s).
+Lemma run_te st s r : run st (te s ++ r) = run st r.
+Proof. unfold te. cbn [tok_events]. destruct (all_space s); reflexivity. Qed.
+
 Lemma leaf_wb v k : wb (events v (leaf_segs k)).
-Proof. apply balanced_wb. destruct v, k; vm_compute; reflexivity. Qed.
+Proof.
+  destruct k as [s| | | | |s|s]; try (apply balanced_wb; destruct v; vm_compute; reflexivity).
+  - assert (E : events v (leaf_segs (KText s)) = eo "div" :: te s ++ [ec "div"])
+      by (unfold events; cbn [leaf_segs flat_map]; rewrite app_nil_r; destruct v; reflexivity).
+    rewrite E. intros st. now rewrite run_eo, run_te, run_ec.
+  - assert (E : events v (leaf_segs (KButton s)) = eo "table" :: eo "tbody" :: eo "tr" :: eo "td" :: eo "p" :: te s ++ [ec "p"; ec "td"; ec "tr"; ec "tbody"; ec "table"])
+      by (unfold events; cbn [leaf_segs flat_map]; rewrite app_nil_r; destruct v; reflexivity).
+    rewrite E. intros st. now rewrite !run_eo, run_te, !run_ec.
+  - assert (E : events v (leaf_segs (KButtonLink s)) = eo "table" :: eo "tbody" :: eo "tr" :: eo "td" :: eo "a" :: te s ++ [ec "a"; ec "td"; ec "tr"; ec "tbody"; ec "table"])
+      by (unfold events; cbn [leaf_segs flat_map]; rewrite app_nil_r; destruct v; reflexivity).
+    rewrite E. intros st. now rewrite !run_eo, run_te, !run_ec.
+Qed.
 
 Lemma wrap2 a b es : wb es -> wb (eo a :: eo b :: es ++ [ec b; ec a]).
 Proof.
@@ -391,6 +409,138 @@ Theorem emit_body_ok v b : ok_frag v (emit_body b).
 Proof. exists (events v (body_segs b)). split; [apply view_flat, body_plain|apply body_wb]. Qed.
 
 
+(* ---- the character data each reading shows (C04 for the core grammar) --------------------- *)
+Definition texts (es : list ev) : list bytes := flat_map (fun e => match e with EText s => [s] | _ => [] end) es.
+Lemma texts_app a b : texts (a ++ b) = texts a ++ texts b.
+Proof. unfold texts. apply flat_map_app. Qed.
+Lemma texts_flat_map {A} (f : A -> list ev) l : texts (flat_map f l) = flat_map (fun x => texts (f x)) l.
+Proof. induction l as [|x r IH]; cbn [flat_map]; [reflexivity|]. now rewrite texts_app, IH. Qed.
+
+Definition vis (s : bytes) : list bytes := if all_space s then [] else [s].        (* what a text token shows *)
+Lemma texts_te s : texts (te s) = vis s.
+Proof. unfold te, vis. cbn [tok_events]. destruct (all_space s); reflexivity. Qed.
+
+(* what each leaf shows: its author content; the spacer's generated hair space; the divider's
+   generated non-breaking space only to Outlook *)
+Definition leaf_texts (v : view_kind) (k : leaf) : list bytes :=
+  match k, v with
+  | KText s, _ | KButton s, _ | KButtonLink s, _ => vis s
+  | KSpacer, _ => [lit "~"]
+  | KDivider, Mso => [lit "~"]
+  | _, _ => []
+  end.
+Definition col_texts v (ks : column) := flat_map (leaf_texts v) ks.
+Definition cols_texts v (cs : list column) := flat_map (col_texts v) cs.
+Definition sec_texts v (s : section) :=
+  match s with Cols cs => cols_texts v cs | Groups gs => flat_map (cols_texts v) gs end.
+Definition block_texts v (b : block) :=
+  match b with Plain s | FullWidth s => sec_texts v s | Wrap ss => flat_map (sec_texts v) ss end.
+Definition body_texts v (b : body) : list bytes := flat_map (block_texts v) b.
+
+Lemma leaf_txt v k : texts (events v (leaf_segs k)) = leaf_texts v k.
+Proof.
+  destruct k as [s| | | | |s|s]; try (destruct v; reflexivity).
+  - assert (E : events v (leaf_segs (KText s)) = eo "div" :: te s ++ [ec "div"])
+      by (unfold events; cbn [leaf_segs flat_map]; rewrite app_nil_r; destruct v; reflexivity).
+    rewrite E. change (eo "div" :: te s ++ [ec "div"]) with ([eo "div"] ++ te s ++ [ec "div"]).
+    rewrite !texts_app, texts_te. unfold eo, ec; cbn [texts flat_map app]; rewrite ?app_nil_r; destruct v; reflexivity.
+  - assert (E : events v (leaf_segs (KButton s)) = [eo "table"; eo "tbody"; eo "tr"; eo "td"; eo "p"] ++ te s ++ [ec "p"; ec "td"; ec "tr"; ec "tbody"; ec "table"])
+      by (unfold events; cbn [leaf_segs flat_map]; rewrite app_nil_r; destruct v; reflexivity).
+    rewrite E, !texts_app, texts_te. unfold eo, ec; cbn [texts flat_map app]; rewrite ?app_nil_r; destruct v; reflexivity.
+  - assert (E : events v (leaf_segs (KButtonLink s)) = [eo "table"; eo "tbody"; eo "tr"; eo "td"; eo "a"] ++ te s ++ [ec "a"; ec "td"; ec "tr"; ec "tbody"; ec "table"])
+      by (unfold events; cbn [leaf_segs flat_map]; rewrite app_nil_r; destruct v; reflexivity).
+    rewrite E, !texts_app, texts_te. unfold eo, ec; cbn [texts flat_map app]; rewrite ?app_nil_r; destruct v; reflexivity.
+Qed.
+Lemma row_txt v k : texts (events v (row_segs k)) = leaf_texts v k.
+Proof.
+  rewrite row_events. change (eo "tr" :: eo "td" :: ?x) with ([eo "tr"; eo "td"] ++ x).
+  rewrite !texts_app, leaf_txt. unfold eo, ec; cbn [texts flat_map app]; now rewrite ?app_nil_r.
+Qed.
+Lemma col_txt v ks : texts (events v (col_segs ks)) = col_texts v ks.
+Proof.
+  rewrite col_events. change (eo "div" :: eo "table" :: eo "tbody" :: ?x) with ([eo "div"; eo "table"; eo "tbody"] ++ x).
+  rewrite !texts_app, texts_flat_map. unfold eo, ec; cbn [texts flat_map app]; rewrite ?app_nil_r.
+  unfold col_texts. apply flat_map_ext. intros k. apply row_txt.
+Qed.
+(* structural segments show nothing *)
+Definition silent (sg : seg) : Prop := forall v, texts (seg_events v sg) = [].
+Lemma silent_txt v sg l : silent sg -> texts (events v (sg :: l)) = texts (events v l).
+Proof. intros H. rewrite events_cons, texts_app, H. reflexivity. Qed.
+Ltac sil := intros v0; destruct v0; reflexivity.
+
+Lemma more_cols_txt v rest : texts (events v (more_cols rest)) = cols_texts v rest.
+Proof.
+  induction rest as [|ks rest IH]; [reflexivity|].
+  unfold more_cols. cbn [flat_map]. change (flat_map (fun ks0 => M [c "td"; o "td"] :: col_segs ks0) rest) with (more_cols rest).
+  rewrite events_app, texts_app, silent_txt by sil. rewrite col_txt, IH. reflexivity.
+Qed.
+Lemma cols_txt v cs : texts (events v (cols_segs cs)) = cols_texts v cs.
+Proof.
+  destruct cs as [|c1 rest]; [destruct v; reflexivity|].
+  unfold cols_segs. rewrite silent_txt by sil. rewrite !events_app, !texts_app, col_txt, more_cols_txt.
+  replace (texts (events v [M [c "td"; c "tr"; c "table"]])) with (@nil bytes) by (destruct v; reflexivity).
+  now rewrite app_nil_r.
+Qed.
+Lemma group_txt v cs : texts (events v (group_segs cs)) = cols_texts v cs.
+Proof.
+  unfold group_segs. rewrite !silent_txt by sil. rewrite events_app, texts_app.
+  replace (texts (events v [P [c "div"]; M [c "td"; c "tr"; c "table"]])) with (@nil bytes) by (destruct v; reflexivity).
+  rewrite app_nil_r. destruct cs as [|c1 rest]; [reflexivity|]. apply cols_txt.
+Qed.
+Lemma children_txt v s : texts (events v (children_segs s)) = sec_texts v s.
+Proof.
+  destruct s as [cs|gs]; cbn [children_segs sec_texts]; [apply cols_txt|].
+  destruct gs as [|g gs]; [destruct v; reflexivity|].
+  rewrite events_flat_map, texts_flat_map. apply flat_map_ext. intros x. apply group_txt.
+Qed.
+Lemma sec_txt v s : texts (events v (sec_segs s)) = sec_texts v s.
+Proof.
+  rewrite sec_events. change (eo "div" :: eo "table" :: eo "tbody" :: eo "tr" :: eo "td" :: ?x) with ([eo "div"; eo "table"; eo "tbody"; eo "tr"; eo "td"] ++ x).
+  rewrite !texts_app, children_txt. unfold eo, ec; cbn [texts flat_map app]; now rewrite ?app_nil_r.
+Qed.
+Lemma more_wrapped_txt v rest : texts (events v (more_wrapped rest)) = flat_map (sec_texts v) rest.
+Proof.
+  induction rest as [|s rest IH]; [reflexivity|].
+  unfold more_wrapped. cbn [flat_map].
+  change (flat_map (fun s0 => M [c "td"; c "tr"; c "table"; c "td"; c "tr"; o "tr"; o "td"; o "table"; o "tr"; o "td"] :: sec_segs s0) rest) with (more_wrapped rest).
+  rewrite events_app, texts_app, silent_txt by sil. rewrite sec_txt, IH. reflexivity.
+Qed.
+Lemma wrap_txt v ss : texts (events v (wrap_segs ss)) = flat_map (sec_texts v) ss.
+Proof.
+  unfold wrap_segs. rewrite silent_txt by sil. rewrite events_app, texts_app.
+  replace (texts (events v [P [c "td"; c "tr"; c "tbody"; c "table"; c "div"]])) with (@nil bytes) by (destruct v; reflexivity).
+  rewrite app_nil_r. destruct ss as [|s1 rest]; [destruct v; reflexivity|].
+  unfold wrap_inner. rewrite silent_txt by sil. rewrite !events_app, !texts_app, sec_txt, more_wrapped_txt.
+  replace (texts (events v [M [c "td"; c "tr"; c "table"; c "td"; c "tr"; c "table"]])) with (@nil bytes) by (destruct v; reflexivity).
+  now rewrite app_nil_r.
+Qed.
+Lemma open_silent pend : silent (open_seg pend). Proof. destruct pend; sil. Qed.
+Lemma blocks_txt v : forall bs pend, texts (events v (blocks_segs pend bs)) = body_texts v bs.
+Proof.
+  induction bs as [|b r IH]; intros pend; [destruct pend, v; reflexivity|].
+  destruct b as [s|s|ss]; cbn [blocks_segs body_texts flat_map block_texts].
+  - rewrite silent_txt by apply open_silent. rewrite events_app, texts_app, sec_txt. f_equal.
+    destruct r as [|b' r']; [destruct v; reflexivity|]. destruct (continues b'); [apply IH|].
+    rewrite silent_txt by sil. apply IH.
+  - rewrite events_app, texts_app.
+    replace (texts (events v (if pend then [close3] else []))) with (@nil bytes) by (destruct pend, v; reflexivity).
+    cbn [app]. rewrite !silent_txt by sil. rewrite events_app, texts_app, sec_txt. f_equal.
+    cbn [app]. rewrite !silent_txt by sil. apply IH.
+  - rewrite silent_txt by apply open_silent. rewrite events_app, texts_app, wrap_txt. f_equal.
+    rewrite silent_txt by sil. apply IH.
+Qed.
+
+(* Every document of the grammar: a standard client shows exactly the author's content of the text
+   and button leaves (plus the spacers' generated hair spaces), each once, in document order; Outlook
+   shows the same plus the dividers' generated spaces - nothing is visible to Outlook only. *)
+Theorem emit_body_texts v b : view_texts v (emit_body b) = Some (body_texts v b).
+Proof.
+  unfold view_texts, emit_body. rewrite (view_flat v _ (body_plain b)). f_equal.
+  change (texts (events v (body_segs b)) = body_texts v b).
+  unfold body_segs. rewrite silent_txt by sil. rewrite events_app, texts_app, blocks_txt.
+  replace (texts (events v [P [c "div"]])) with (@nil bytes) by (destruct v; reflexivity). now rewrite app_nil_r.
+Qed.
+
 (* ---- interface of the correspondence check ----------------------------------------------- *)
 (* what remains of a real output when attributes, text and white space are erased *)
 Definition erase_tok (t : tok) : list tok :=
@@ -460,12 +610,26 @@ Proof. intros [es [H W]]. exists es. split; [now apply view_squash|exact W]. Qed
 (* None = the erased body of the real output IS the model's emission for that document (up to the
    cutting of Outlook-only markup into conditionals) *)
 Definition skel_diff (b : body) (html : bytes) : option nat :=
-  toks_diff 1 (squash (emit_body b)) (squash (erase (body_tokens (lex html)))).
+  toks_diff 1 (squash (erase (emit_body b))) (squash (erase (body_tokens (lex html)))).
 Definition skel_mismatches (cases : list (nat * body * bytes)) : list (nat * nat) :=
   flat_map (fun x => match x with (i, b, h) => match skel_diff b h with None => [] | Some k => [(i, k)] end end) cases.
 
+(* the text the implementation's output shows, with generated text (anything that is not an "S...X" sentinel) mapped to "~" *)
+Definition norm_gen (s : bytes) : bytes := if prefix (lit "S") s then s else lit "~".
+Fixpoint list_bytes_eqb (a b : list bytes) : bool :=
+  match a, b with [], [] => true | x :: a', y :: b' => bytes_eqb x y && list_bytes_eqb a' b' | _, _ => false end.
+Definition texts_agree (v : view_kind) (b : body) (html : bytes) : bool :=
+  match view_texts v (body_tokens (lex html)) with
+  | Some l => list_bytes_eqb (map norm_gen l) (body_texts v b)
+  | None => false
+  end.
+Definition text_mismatches (cases : list (nat * body * bytes)) : list nat :=
+  flat_map (fun x => match x with (i, b, h) => if texts_agree Std b h && texts_agree Mso b h then [] else [i] end) cases.
+
 Example emit_nonvacuous :
-  let b := [Plain (Cols [[KText; KDivider]; [KButtonLink]]); Plain (Groups [[[KImage]; []]; []]); FullWidth (Cols []);
-            Wrap [Cols [[KSpacer]]; Cols [[KImageLink]; [KButton]]]; Plain (Cols [[KText]]); Wrap []] in
-  check_views (emit_body b) = true /\ no_vml_outside Closed (emit_body b) = true.
-Proof. vm_compute. split; reflexivity. Qed.
+  let b := [Plain (Cols [[KText (lit "S1X"); KDivider]; [KButtonLink (lit "S2X")]]); Plain (Groups [[[KImage]; []]; []]); FullWidth (Cols []);
+            Wrap [Cols [[KSpacer]]; Cols [[KImageLink]; [KButton (lit "S3X")]]]; Plain (Cols [[KText (lit "S4X")]]); Wrap []] in
+  check_views (emit_body b) = true /\ no_vml_outside Closed (emit_body b) = true /\
+  view_texts Std (emit_body b) = Some [lit "S1X"; lit "S2X"; lit "~"; lit "S3X"; lit "S4X"] /\
+  view_texts Mso (emit_body b) = Some [lit "S1X"; lit "~"; lit "S2X"; lit "~"; lit "S3X"; lit "S4X"].
+Proof. vm_compute. repeat split; reflexivity. Qed.
